@@ -223,6 +223,28 @@ def walk(e: Any):
     yield from rec(e, [])
 
 
+import contextlib
+import json as _json
+import os
+
+
+def _json_dumps(c) -> str:
+    return _json.dumps(c.get("e") if c.get("kind") == "expr" else c.get("re"))
+
+
+@contextlib.contextmanager
+def _quiet_stderr():
+    saved = os.dup(2)
+    devnull = os.open(os.devnull, os.O_WRONLY)
+    try:
+        os.dup2(devnull, 2)
+        yield
+    finally:
+        os.dup2(saved, 2)
+        os.close(saved)
+        os.close(devnull)
+
+
 # ----------------------------------------------------------------------------------------------
 # canonical form of implementation values (the model's `V.show`)
 # ----------------------------------------------------------------------------------------------
@@ -893,7 +915,7 @@ class C09(Prop):
         note='Lean kernel; standard axioms; evaluator control flow hand-modelled and tied by correspondence; google-re2 trusted outside the verified fragment; lark',
         ref='DESIGN.md §5 C09')
     lean_targets = ["Cel.Props.C09", "Cel.Bridge.Coll"]
-    audit_namespaces = ["Cel.Props.C09", "Cel.Bridge.Coll"]
+    audit_namespaces = ["Cel.Props.C09", "Cel.Bridge"]
     gen_names = ["Coll"]
     trusted = ["google-re2 outside the fragment {literal, ., class, *, +, ?, |, concatenation, grouping, ^, $}",
                "Python `re` as the oracle's matcher on that fragment", "lark parsing of the rendered CEL text",
@@ -909,17 +931,17 @@ class C09(Prop):
         quick = tier == "quick"
         g = Gen(rng)
         cases: List[Dict[str, Any]] = []
-        n_expr = 650 if quick else 30000
+        n_expr = 650 if quick else 14000
         for i in range(n_expr):
             t = g.gtype(2)
             e = g.expr(t, rng.randint(1, 4), [])
             for rn in ("I", "C"):
                 cases.append({"kind": "expr", "runner": rn, "e": e})
-        for i in range(30 if quick else 1500):
+        for i in range(30 if quick else 500):
             for e in law_cases(g):
                 for rn in ("I", "C"):
                     cases.append({"kind": "expr", "runner": rn, "e": e})
-        for i in range(1200 if quick else 60000):
+        for i in range(1200 if quick else 40000):
             cases.append({"kind": "re", "re": g.regex(rng.randint(1, 4)), "s": g.restr()})
         for p in BAD_PATTERNS:
             cases.append({"kind": "re", "re": ["bad", p], "s": [97]})
@@ -927,6 +949,12 @@ class C09(Prop):
 
     # ---- implementation
     def impl(self, c):
+        if '"bad"' in _json_dumps(c):
+            with _quiet_stderr():            # RE2 logs every rejected pattern on fd 2
+                return self._impl(c)
+        return self._impl(c)
+
+    def _impl(self, c):
         if c["kind"] == "re":
             from celpy.evaluation import function_matches, CELEvalError
             try:
